@@ -161,7 +161,7 @@ def emit(tab):
              "method classes -- do not edit *)",
              "Require Import String List.", "Import ListNotations.", "Local Open Scope string_scope.", ""]
     for key in sorted(tab):
-        lines.append("Definition %s : list string := %s." % (key, coq_list(tab[key])))
+        lines.append("Definition mc_%s : list string := %s." % (key, coq_list(tab[key])))
     return "\n".join(lines) + "\n"
 
 
